@@ -297,3 +297,110 @@ def box_real(ctx):
             ctx.report_cex("box_real", model, {"reproduced": got != want, "got": got, "expected": want, "points": pts, "query": qv,
                                                "what": "positional query differs from the closed leeway box"})
             return
+
+
+# ------------------------------------------------------------------------------------------------ integers (second engine)
+
+def _iworld(w, h, d, off, wrap, p0):
+    m = Model(logger=NULL_LOGGER)
+    env = E.SpaceWorld(m, 1, 1, 1)
+    env.width, env.height, env.depth, env.wrap_env, env._index_offset = w, h, d, wrap, off
+    a = Agent("a", m)
+    pc = E.PositionComponent(a, m, *p0)
+    a.add_component(pc)
+    env.agents[a.id] = a
+    return m, env, a, pc
+
+
+def _inum(model, name):
+    v = model.get(name)
+    if v is None:
+        return 0
+    return v == 'True' if v in ('True', 'False') else int(v)
+
+
+def move_int_k(ctx):
+    """SpaceWorld.move on unbounded integers, wrap and offset symbolic: the same statement as C08.move_int (engine X),
+    decided a second time by the lifter - one query per axis instead of one path per case"""
+    w, h, d, off = z3.Ints('w h d off')
+    wrap = z3.Bool('wrap')
+    p0 = z3.Ints('px py pz')
+    dl = z3.Ints('dx dy dz')
+    m, env, a, pc = _iworld(w, h, d, off, wrap, p0)
+    K = Interp()
+    outs = K.call(env.move, [a, dl[0], dl[1], dl[2]])
+    ctx.encoded.update(K.encoded)
+    raises = [g for g, k, v in outs if k == "raise"]
+    pre = [w >= 0, h >= 0, d >= 0, z3.Or(off == 0, off == 1)]
+    for p, e in zip(p0, (w, h, d)):
+        pre.append(z3.Implies(e > 0, z3.And(0 <= p, p <= e - off)))
+    ctx.q.check("pre satisfiable", pre, "sat")
+    ctx.q.check("pre satisfiable (wrapping, several laps)", pre + [wrap, w >= 2, dl[0] > 3 * w], "sat")
+    # translator validation against the real method
+    n = 0
+    for (cw, co, cwrap, cp, cd) in ((5, 0, False, 2, 9), (5, 1, False, 4, 1), (5, 1, True, 4, 11), (3, 0, True, 0, -7), (0, 0, True, 4, 2),
+                                    (0, 1, False, 4, 2), (1, 1, False, 0, -3), (4, 0, True, 3, -12)):
+        mm = Model(logger=NULL_LOGGER)
+        real = E.SpaceWorld(mm, cw, cw, cw, wrap_env=cwrap)
+        real._index_offset = co
+        ag = Agent("r", mm)
+        ag.add_component(E.PositionComponent(ag, mm, cp, cp, cp))
+        real.move(ag, cd, cd, cd)
+        sub = [(w, z3.IntVal(cw)), (h, z3.IntVal(cw)), (d, z3.IntVal(cw)), (off, z3.IntVal(co)), (wrap, z3.BoolVal(cwrap))] + \
+            [(p, z3.IntVal(cp)) for p in p0] + [(x, z3.IntVal(cd)) for x in dl]
+        if concretize(pc.y, sub) != ag[E.PositionComponent].y:
+            raise AssertionError("translator validation failed for move %r" % ((cw, co, cwrap, cp, cd),))
+        n += 1
+    ctx.validated(n)
+
+    def replay(model):
+        cw, ch, cd_, co, cwrap = (_inum(model, k) for k in ('w', 'h', 'd', 'off', 'wrap'))
+        ps = [_inum(model, k) for k in ('px', 'py', 'pz')]
+        ds = [_inum(model, k) for k in ('dx', 'dy', 'dz')]
+        mm = Model(logger=NULL_LOGGER)
+        real = E.SpaceWorld(mm, cw, ch, cd_, wrap_env=bool(cwrap))
+        real._index_offset = co
+        ag = Agent("r", mm)
+        ag.add_component(E.PositionComponent(ag, mm, *ps))
+        try:
+            real.move(ag, *ds)
+        except Exception as ex:
+            return {"reproduced": True, "what": "move raised %r" % ex, "inputs": model}
+        pos = ag[E.PositionComponent].xyz()
+        bad = []
+        for e, p, dd, new in zip((cw, ch, cd_), ps, ds, pos):
+            if e > 0:
+                want = (p + dd) % e if cwrap else min(max(p + dd, 0), e - co)
+                if new != want or not (0 <= new <= e - co):
+                    bad.append((new, want))
+        return {"reproduced": bool(bad), "inputs": model, "after": pos, "violations": bad,
+                "what": "relative move on ints is not (old+delta) mod extent / saturated"}
+    if raises:
+        r, model = ctx.q.check("no exception", pre + [z3.Or(raises)], "unsat")
+        if r == "sat":
+            ctx.report_cex("no_exception", model, replay(model))
+            return
+    for ax, new, p, dd, e in zip("xyz", (pc.x, pc.y, pc.z), p0, dl, (w, h, d)):
+        sm = p + dd
+        clamp = z3.If(sm < 0, 0, z3.If(sm > e - off, e - off, sm))
+        r, model = ctx.q.check("axis %s, clamping world: old+delta saturated to [0, extent-offset]" % ax,
+                               pre + [e > 0, z3.Not(wrap), new != clamp], "unsat")
+        if r == "sat":
+            ctx.report_cex("clamp_" + ax, model, replay(model))
+            return
+        r, model = ctx.q.check("axis %s, wrapping world: result in [0, extent)" % ax,
+                               pre + [e > 0, wrap, z3.Or(new < 0, new >= e)], "unsat")
+        if r == "sat":
+            ctx.report_cex("wrap_range_" + ax, model, replay(model))
+            return
+        # (z3's mod is the Euclidean one, which coincides with Python's % for a positive modulus; stating the congruence
+        # as (new - sm) mod e == 0 instead makes z3 answer unknown - measured 120 s)
+        r, model = ctx.q.check("axis %s, wrapping world: result is (old+delta) modulo extent" % ax,
+                               pre + [e > 0, wrap, new != sm % e], "unsat")
+        if r == "sat":
+            ctx.report_cex("wrap_congruent_" + ax, model, replay(model))
+            return
+        r, model = ctx.q.check("axis %s, wrapping world, zero extent: untouched" % ax, pre + [e == 0, wrap, new != p], "unsat")
+        if r == "sat":
+            ctx.report_cex("wrap_zero_" + ax, model, replay(model))
+            return
